@@ -18,6 +18,9 @@ const (
 	oPanicErr  = "panic-err"  // panic(error)
 	oPanicVal  = "panic-val"  // panic(struct{}) -> errorpkg.Error turns it into "unknown error"
 	oPanicRT   = "panic-rt"   // a real runtime error (nil map write)
+	// oCompletePanic is a stage level outcome of the systematic trees: plan ok, Complete() panics. Unlike the other
+	// failures it does not keep the stage from planning its next stages.
+	oCompletePanic = "complete-panic"
 )
 
 var failOutcomes = []string{oErr, oNFPlain, oErrIgnore, oPanicStr, oPanicErr, oPanicVal, oPanicRT}
@@ -43,11 +46,13 @@ type stageSpec struct {
 	NilCtx bool `json:"nil_ctx,omitempty"`
 	// PlanKind: "nil" (Plan() returns nil), "empty-root" (NewEmptyPlanNode with the ops as children),
 	// "op-root" (first op is the root plan node, others hang below it).
-	PlanKind  string       `json:"plan"`
-	Ops       []opSpec     `json:"ops,omitempty"`
-	NextPanic bool         `json:"next_panic,omitempty"` // NextStages() panics
-	PlanPanic bool         `json:"plan_panic,omitempty"` // Plan() panics
-	Children  []*stageSpec `json:"children,omitempty"`
+	PlanKind  string   `json:"plan"`
+	Ops       []opSpec `json:"ops,omitempty"`
+	NextPanic bool     `json:"next_panic,omitempty"` // NextStages() panics
+	PlanPanic bool     `json:"plan_panic,omitempty"` // Plan() panics
+	// CompletePanic: the stage's Complete() callback (called by the state machine when the stage is over) panics
+	CompletePanic bool         `json:"complete_panic,omitempty"`
+	Children      []*stageSpec `json:"children,omitempty"`
 }
 
 // treeSpec is one generated case.
@@ -91,6 +96,9 @@ func (t *treeSpec) canon() string {
 		if s.PlanPanic {
 			sb.WriteString("!plan")
 		}
+		if s.CompletePanic {
+			sb.WriteString("!complete")
+		}
 		if len(s.Children) > 0 {
 			sb.WriteByte('(')
 			for _, c := range s.Children {
@@ -115,7 +123,7 @@ func hashKey(parts ...string) string {
 
 // stageFails reports whether the spec of the stage makes it fail (when it runs at all).
 func (s *stageSpec) stageFails() bool {
-	if s.PlanPanic || s.NextPanic {
+	if s.PlanPanic || s.NextPanic || s.CompletePanic {
 		return true
 	}
 	for _, o := range s.Ops {
@@ -145,6 +153,10 @@ func renumber(t *treeSpec) {
 
 // simpleStage builds a stage with one operator of the given outcome.
 func simpleStage(async bool, outcome string) *stageSpec {
+	if outcome == oCompletePanic {
+		// the plan succeeds, only the Complete() callback panics
+		return &stageSpec{Async: async, PlanKind: "empty-root", Ops: []opSpec{{Outcome: oOK, Parent: -1}}, CompletePanic: true}
+	}
 	return &stageSpec{Async: async, PlanKind: "empty-root", Ops: []opSpec{{Outcome: outcome, Parent: -1}}}
 }
 
@@ -194,7 +206,7 @@ func systematicSpecs(maxN int, outs []string) []*treeSpec {
 				for i := 0; i < n; i++ {
 					oc[i] = outs[c%nOut]
 					c /= nOut
-					if hasChild[i] && isFailOutcome(oc[i]) {
+					if hasChild[i] && isFailOutcome(oc[i]) && oc[i] != oCompletePanic {
 						ok = false // children of a failed stage never start: same run as the smaller tree
 						break
 					}
@@ -327,6 +339,10 @@ func randomSpec(r *rand.Rand, lim genLimits) *treeSpec {
 			s.NextPanic = true
 		case x < 12:
 			s.PlanPanic = true
+		case x < 30:
+			// Complete() panics: any position (it does not cut the subtree), often the only failure of the tree
+			s = nodes[r.Intn(len(nodes))]
+			s.CompletePanic = true
 		default:
 			if len(s.Ops) == 0 {
 				s.PlanKind = "empty-root"
@@ -360,6 +376,8 @@ func wideSpec(r *rand.Rand) *treeSpec {
 			out = oPanicStr
 		case 2:
 			out = oNFIgnored
+		case 3:
+			out = oCompletePanic
 		}
 		root.Children = append(root.Children, simpleStage(true, out))
 	}
